@@ -51,13 +51,15 @@ TOL_CCD = 6e-3      # mj_geomDistance of *separated* pairs that go through the i
 TOL_CCD_CONTACT = 0.1   # contact distance of mjc_Convex / mjc_BoxBox vs mj_geomDistance, separated pairs (observed <= 9e-3 with
                         # margins: mjc_Convex inflates the geoms by the margin and runs EPA); gross errors only, accuracy is C15
 TOL_UNIT = 1e-9     # |n| = 1, orthonormality
-TOL_CCD_WITNESS = 0.25   # witness points of separated convex pairs (observed <= 2.3e-2 with margins: mjc_Convex inflates the
-                         # geoms by the margin and runs EPA); only gross errors are caught here, accuracy belongs to C15
+TOL_CCD_WITNESS = 1e-3   # witness points returned by mj_geomDistance for separated CCD pairs (pure GJK; observed <= 5e-6).
+                         # The witness points of mjc_Convex *contacts* are not checked: with margins they are off by up to 0.3 (C15)
 DEFECT_KEY = "c13:frame:plane-capsule-axis-parallel-to-normal"
 DEFECT_KEY_CAPS = "c13:capsule-capsule:parallel-early-return-not-closest"
 DEFECT_KEY_BOX = "c13:box-box:contact-distance-not-geomdistance"
 DEFECT_KEY_CCD = "c13:geomdist:ccd-coincident-centres-asymmetric"
-DEFECT_KEYS = (DEFECT_KEY, DEFECT_KEY_CAPS, DEFECT_KEY_BOX, DEFECT_KEY_CCD)
+DEFECT_KEY_CYL = "c13:plane-cylinder:flat-disk-threshold"
+DEFECT_KEY_CAPBOX = "c13:capsule-box:axis-through-box-reported-separated"
+DEFECT_KEYS = (DEFECT_KEY, DEFECT_KEY_CAPS, DEFECT_KEY_BOX, DEFECT_KEY_CCD, DEFECT_KEY_CYL, DEFECT_KEY_CAPBOX)
 
 PLANE, SPHERE, CAPSULE, ELLIPSOID, CYLINDER, BOX = (enums.E("mjGEOM_" + n) for n in
                                                     ("PLANE", "SPHERE", "CAPSULE", "ELLIPSOID", "CYLINDER", "BOX"))
@@ -615,6 +617,12 @@ def judge_scene(line, out, dev):
     cap_zone_contact = par_caps and capsule_early_return(g1, g2, mg)
     cap_zone_gd = par_caps and (capsule_early_return(G[0], G[1], distmax) or capsule_early_return(G[1], G[0], distmax))
     CAPKEY, BOXKEY = DEFECT_KEY_CAPS, DEFECT_KEY_BOX
+    cyl_zone = pair == (PLANE, CYLINDER) and norm(cross(col(g1["mat"], 2), col(g2["mat"], 2))) < 1e-7
+    cyl_mark = len(fails)
+    thru = None
+    if pair in ((CAPSULE, BOX), (CAPSULE, CYLINDER)):
+        thru = seg_sdf_min(g2, g1["pos"], col(g1["mat"], 2), g1["size"][1])    # < 0: the capsule axis enters the other geom
+    capbox_zone = pair == (CAPSULE, BOX) and thru < -1e-6
 
     an = None if illc else pair_distance(g1, g2)
     if pair == (BOX, BOX):
@@ -656,8 +664,8 @@ def judge_scene(line, out, dev):
                 best = dv if best is None or dv < best else best
             chk("endsphere", best, TOL, "plane-capsule contact is not the plane-sphere contact of one of the two end spheres")
             witness = witness and ci == imin
-        if not exact and c["dist"] < 1e-6:
-            witness = False                                           # EPA penetration witnesses: C15
+        if not exact:
+            witness = False                                           # mjc_Convex witnesses (margin inflation + EPA): C15
         if pair == (CAPSULE, CAPSULE):
             witness = witness and ci == imin      # the second contact of the parallel branch is an end point vs a clamped point
         if witness:
@@ -671,7 +679,7 @@ def judge_scene(line, out, dev):
         if pair[0] == PLANE:
             pn = col(g1["mat"], 2)
             chk("planenormal", max(abs(n[i] - pn[i]) for i in range(3)), 1e-12, "normal of a plane contact is not the plane normal")
-        elif not degen and ci == imin:
+        elif not degen and ci == imin and not capbox_zone:
             cd = sub(g2["pos"], g1["pos"])
             if c["dist"] > 1e-6 or pair == (SPHERE, SPHERE):
                 if not dot(n, cd) > 0:
@@ -743,6 +751,19 @@ def judge_scene(line, out, dev):
                 fails.append((BOXKEY, "box-box within the margin: the contact distance of mjc_BoxBox (%.17g) is not the distance "
                               "reported by mj_geomDistance (%.17g; exact polytope distance %s)" % (dmin, gd["d01"], an[0] if an else None)))
             # penetrating box-box: SAT depth vs EPA depth of the native CCD belongs to C15
+    if cyl_zone and len(fails) > cyl_mark:
+        # cylinder axis along the plane normal: mjc_PlaneCylinder's test len_sqr >= mjMINVAL^2 lets rounding noise of length
+        # ~1e-15 through, normalises it and shifts the contact by a full radius
+        del fails[cyl_mark:]
+        fails.append((DEFECT_KEY_CYL, "plane-cylinder with the cylinder axis along the plane normal: contact distance %s, closed form %s "
+                      "(off by the cylinder radius %.17g)" % (dmin, an[0] if an else None, g2["size"][0])))
+    # a capsule whose axis passes through the box / cylinder certainly penetrates it
+    # (capsule-cylinder goes through the native CCD, which returns nothing for coincident centres: degenerate start, C15)
+    if thru is not None and not (pair == (CAPSULE, CYLINDER) and (degen or illc)):
+        if thru < -1e-6 and (dmin is None or dmin > 1e-9):
+            fails.append((DEFECT_KEY_CAPBOX if pair == (CAPSULE, BOX) else "c13:sign:" + pname,
+                          "%s: the capsule axis passes through the other geom (min SDF along the axis %.17g) but the smallest "
+                          "contact distance is %s (not negative)" % (pname, thru, dmin)))
     return fails
 
 
